@@ -20,9 +20,9 @@ from vlib.runner import config_name
 
 def shards(tier, seed):
     k = 1 if tier == 'quick' else 8
-    out = [{'name': f'm1-sync-l{l}-{j}', 'kind': 'sync', 'l': l, 'cases': 90 * k} for l in (16, 32) for j in range(3)]
+    out = [{'name': f'm1-sync-l{l}-{j}', 'kind': 'sync', 'l': l, 'cases': 400 * k} for l in (16, 32) for j in range(4)]
     for c in [(2, 0, False), (3, 1, False), (3, 1, True), (5, 2, False)]:
-        out.append({'name': config_name(c), 'kind': 'sim', 'cfg': list(c), 'cases': (10 if c[0] <= 3 else 5) * k})
+        out.append({'name': config_name(c), 'kind': 'sim', 'cfg': list(c), 'cases': (40 if c[0] <= 3 else 12) * k})
     out.append({'name': 'probe-zero-alignment', 'kind': 'probe'})
     return out
 
@@ -51,7 +51,9 @@ def judge(op, x, y, got, u, rec, what, case, feats):
         rec.count('comparisons_checked')
         exp = {'lt': X < Y, 'le': X <= Y, 'eq': X == Y, 'ne': X != Y, 'ge': X >= Y, 'gt': X > Y}[op]
         if bool(got) != exp:
-            rec.violation(f'{what}: {x!r} {op} {y!r} = {got}', dict(feats, mechanism='comparison'), {'case': case}, case=case)
+            oz = (x == 0) != (y == 0)
+            rec.violation(f'{what}: {x!r} {op} {y!r} = {got}', dict(feats, mechanism='comparison', one_operand_zero=oz,
+                                                                 other_exponent_below_minus_4=(math.frexp(x if y == 0 else y)[1] < -3) if oz else False), {'case': case}, case=case)
         return
     rec.count('operations_checked')
     if op in ('add', 'sub'):
